@@ -190,6 +190,12 @@ func (c *Case) Exec(t *eng.T) {
 	}
 	t.Outcome(fmt.Sprint(len(st.DistinctOut), st.Schedules > 2))
 	for _, f := range st.Findings {
+		if f.Kind == "nondeterministic" {
+			// a replay that diverges is a fault of the harness' control over nondeterminism (e.g. Go map order
+			// deciding the order of events), not a statement about the property: counted, never an alarm
+			t.AddExtra("scenarios_with_nondeterministic_replay", 1)
+			continue
+		}
 		t.Fail(f.Key, "%s [%s] schedule=%v", f.Desc, c.ID(), f.Schedule)
 	}
 }
